@@ -12,7 +12,6 @@ import (
 
 	"github.com/rs/zerolog"
 
-	"github.com/coreruleset/crs-toolchain/v2/cmd"
 	"github.com/coreruleset/crs-toolchain/v2/configuration"
 	crsctx "github.com/coreruleset/crs-toolchain/v2/context"
 	"github.com/coreruleset/crs-toolchain/v2/regex/operators"
@@ -187,81 +186,62 @@ func runCmd(f func() (string, error)) CmdResult {
 	return CmdResult{o, so}
 }
 
-func (r *Root) procCtx() *processors.Context {
-	return processors.NewContext(crsctx.New(r.Dir, "toolchain.yaml"))
-}
-
 // Format is `regex format <file>` (check=false) or `regex format --check <file>`.
 func (r *Root) Format(filePath string, check bool) CmdResult {
-	if CLIMode {
+	if CLIMode || !ShimAvailable {
 		args := []string{"-d", r.Dir, "regex", "format"}
 		if check {
 			args = append(args, "--check")
 		}
 		return runCLI(r.Dir, "", append(args, cliFormatArg(r.Dir, filePath))...).cmdResult()
 	}
-	return runCmd(func() (string, error) {
-		cmd.VerifSetRoot(r.Dir, false)
-		return "", cmd.VerifProcessFile(filePath, r.procCtx(), check)
-	})
+	return formatIn(r, filePath, check)
 }
 
-// Update is `regex update <arg>` for an already validated argument.
+// Update is `regex update <arg>`.
 func (r *Root) Update(arg string) CmdResult {
-	if CLIMode {
+	if CLIMode || !ShimAvailable {
 		return runCLI(r.Dir, "", "-d", r.Dir, "regex", "update", arg).cmdResult()
 	}
-	return runCmd(func() (string, error) {
-		cmd.VerifSetRoot(r.Dir, false)
-		if _, _, _, err := cmd.VerifParseRuleId(arg); err != nil {
-			return "", err
-		}
-		cmd.VerifPerformUpdate(false, r.procCtx())
-		return "", nil
-	})
+	return updateIn(r, arg)
 }
 
 // Compare is `regex compare <arg>`.
 func (r *Root) Compare(arg string, github bool) CmdResult {
-	if CLIMode {
+	if CLIMode || !ShimAvailable {
 		args := []string{"-d", r.Dir}
 		if github {
 			args = append(args, "-o", "github")
 		}
 		return runCLI(r.Dir, "", append(args, "regex", "compare", arg)...).cmdResult()
 	}
-	return runCmd(func() (string, error) {
-		cmd.VerifSetRoot(r.Dir, github)
-		if _, _, _, err := cmd.VerifParseRuleId(arg); err != nil {
-			return "", err
-		}
-		return "", cmd.VerifPerformCompare(false, r.procCtx())
-	})
+	return compareIn(r, arg, github)
 }
 
 // CompareAll is `regex compare --all`.
 func (r *Root) CompareAll(github bool) CmdResult {
-	if CLIMode {
+	if CLIMode || !ShimAvailable {
 		args := []string{"-d", r.Dir}
 		if github {
 			args = append(args, "-o", "github")
 		}
 		return runCLI(r.Dir, "", append(args, "regex", "compare", "--all")...).cmdResult()
 	}
-	return runCmd(func() (string, error) {
-		cmd.VerifSetRoot(r.Dir, github)
-		return "", cmd.VerifPerformCompare(true, r.procCtx())
-	})
+	return compareAllIn(r, github)
 }
 
 // UpdateAll is `regex update --all`.
 func (r *Root) UpdateAll() CmdResult {
-	if CLIMode {
+	if CLIMode || !ShimAvailable {
 		return runCLI(r.Dir, "", "-d", r.Dir, "regex", "update", "--all").cmdResult()
 	}
-	return runCmd(func() (string, error) {
-		cmd.VerifSetRoot(r.Dir, false)
-		cmd.VerifPerformUpdate(true, r.procCtx())
-		return "", nil
-	})
+	return updateAllIn(r)
+}
+
+// UpdateRegexFile calls the private updateRegex directly (Kind "unavailable" when the export shim does not compile).
+func UpdateRegexFile(path, ruleID string, offset uint8, newRegex string) Outcome {
+	if !ShimAvailable {
+		return Outcome{Kind: "unavailable"}
+	}
+	return updateRegexIn(path, ruleID, offset, newRegex)
 }
